@@ -579,7 +579,14 @@ func checkExpectation(meta *sx.Sexp, out []byte, xerr error) string {
 		}
 		loc, p, ln := errObs(xerr)
 		act := string(f.Xs[3].B)
-		selfDetected := !strings.HasPrefix(act, "{{ fail(")
+		// errors reported by a called function - the registry's fail() and jet's own built-ins, which use
+		// Arguments.Panicf - need not carry a position; everything jet's evaluator detects itself must
+		selfDetected := true
+		for _, fn := range []string{"{{ fail(", "{{ map(", "{{ ints(", "{{ len("} {
+			if strings.HasPrefix(act, fn) {
+				selfDetected = false
+			}
+		}
 		if selfDetected {
 			if loc.A != "true" {
 				return "error for " + act + " carries no file/line: " + clipS(xerr.Error())
@@ -659,8 +666,9 @@ func panicOrigin(stack []byte) (callee bool) {
 func executeContained(t *jet.Template, w io.Writer, vars jet.VarMap, data interface{}) (xerr error) {
 	defer func() {
 		if e := recover(); e != nil {
-			_, isErr := e.(error)
-			xerr = crashErr{msg: fmt.Sprint(e), callee: !isErr && panicOrigin(debug.Stack())}
+			// anything that reaches here was re-raised by Runtime.recover on purpose (runtime errors and
+			// non-error values); whose defect it is depends on where it was raised
+			xerr = crashErr{msg: fmt.Sprint(e), callee: panicOrigin(debug.Stack())}
 		}
 	}()
 	return t.Execute(w, vars, data)
